@@ -15,7 +15,7 @@ from vlib.client import EngineProc
 from vlib import snapshot, invariants
 
 
-def judge(pid, S0, S1, bundle, reply, err):
+def judge(pid, S0, S1, bundle, reply, err, schema=None):
   """-> list of (mech, msg) the property's oracle reports for the last entry."""
   if pid == 'C09':
     return invariants.c09(S1) if reply is not None else []
@@ -30,7 +30,7 @@ def judge(pid, S0, S1, bundle, reply, err):
     if reply is None:
       return []
     mod = importlib.import_module('props.C10')
-    return mod.judge(S0, S1, bundle, reply)
+    return mod.judge(S0, S1, bundle, reply, invariants.meta_types_from_schema(schema) if schema else None)[0]
   raise SystemExit('unknown property ' + pid)
 
 
@@ -46,7 +46,15 @@ def replay(pid, log, verbose=False):
       if verbose:
         print(i, tag, json.dumps(actions)[:300], 'OK' if e is None else 'ERR ' + e.text[:200])
     S1 = snapshot.take(p)
-    return judge(pid, S0, S1, log[-1][1], r, e), S0, S1, r, e
+    schema = p.call('verif_schema')['schema'] if pid == 'C10' else None
+    msgs = judge(pid, S0, S1, log[-1][1], r, e, schema)
+    if pid in ('C09', 'C11', 'C12') and r is not None and S0 is not None:
+      # state invariants: the state before the last entry must satisfy the invariant itself, otherwise the
+      # minimisation has drifted to a history in which an earlier (recorded, now ill-fitting) action broke it
+      pre = {'C09': lambda: invariants.c09(S0), 'C11': lambda: invariants.c11(S0)[0], 'C12': lambda: invariants.c12(S0)[0]}[pid]()
+      if pre:
+        msgs = []
+    return msgs, S0, S1, r, e
 
 
 def main():
